@@ -12,6 +12,13 @@ implementation with one witness input per flag (the inputs of the `_refuted` the
 it behaves as.  Then EVERY case must agree with Model(V); a case on which Model(V) differs from Model(repaired)
 is an instance of a deviation from the property (the repaired model is proved to meet the spec): it is reported
 as a violation unless a `known` entry of known_findings recognises it by its signature.
+
+Robustness variants (field "alts" of slice / tokens cases; tables SLICE_ALTS, TOKEN_ALTS): the same logical call through the
+modules.* wrapper, torch.jit.script of the function / module, keywords, trailing defaults omitted, non-contiguous inputs,
+stepped / column-view index tensors, int32 labels, a second call on the same tensors, one tensor for two parameters,
+omitted lengths given explicitly, element by element - each must give the canonical outcome and leave the arguments
+untouched.  dir cases may carry a file prefix, sub-directory names, omitted default options and utterance ids that are
+prefixes of one another / contain '.', '-', '_'.  audit_cases(): streams for rarely met situations.
 """
 import itertools
 import json
@@ -802,7 +809,7 @@ def _rand_lens(rng, N, T, p_none=0.3):
 
 
 ODD_IDS = [-1, -5, 2 ** 31, 2 ** 40, -2 ** 35]
-BIG = [2 ** 31, 2 ** 33 + 5, 10 ** 12]
+BIG = [2 ** 31, 2 ** 32, 2 ** 33 + 5, 10 ** 12]
 
 
 def _tok_id(rng):
@@ -815,9 +822,11 @@ def _finish_slice(rng, c):
     if c["policy"] == "ali" and rng.random() < 0.15:
         lab = rng.sample([-1, 0, 2 ** 40, -2 ** 35, 7, 2 ** 31], 5)
         c["rows"] = [[lab[v] for v in r] for r in c["rows"]]
-    if c["policy"] == "ref" and rng.random() < 0.08:
+    if c["policy"] == "ref" and rng.random() < 0.1:
         K = rng.choice(BIG)
-        c["rows"] = [[[t, s_ + K if s_ >= 0 else s_, e + K if e >= 0 else e] for t, s_, e in r] for r in c["rows"]]
+        allfar = rng.random() < 0.5
+        c["rows"] = [[[t, s_ + K, e + K] if (s_ >= 0 and e >= 0 and (allfar or rng.random() < 0.5)) else [t, s_, e] for t, s_, e in r]
+                     for r in c["rows"]]
         if c.get("other_lens") is not None:
             c["other_lens"] = [x + K for x in c["other_lens"]]
     c["alts"] = rng.sample(SLICE_ALTS, 2)
@@ -914,8 +923,13 @@ def rand_tokens(rng):
 def _finish_tokens(rng, c):
     if rng.random() < 0.08:     # frame indices far from 0: the arithmetic is on int64
         K = rng.choice(BIG)
-        c["refs"] = [[[t, s_ + K if s_ >= 0 else s_, e + K if e >= 0 else e] for t, s_, e in r] for r in c["refs"]]
-        c["slices"] = [[a + K, b + K] for a, b in c["slices"]]
+        if rng.random() < 0.5:
+            c["refs"] = [[[t, s_ + K if s_ >= 0 else s_, e + K if e >= 0 else e] for t, s_, e in r] for r in c["refs"]]
+            c["slices"] = [[a + K, b + K] for a, b in c["slices"]]
+        else:   # only some of the tokens (and slice bounds) lie far away: a comparison in a narrower type would wrap
+            far = lambda t: [t[0], t[1] + K, t[2] + K] if (t[1] >= 0 and t[2] >= 0 and rng.random() < 0.5) else t
+            c["refs"] = [[far(t) for t in r] for r in c["refs"]]
+            c["slices"] = [[a + (K if rng.random() < 0.3 else 0), b + (K if rng.random() < 0.7 else 0)] for a, b in c["slices"]]
     c["alts"] = rng.sample(TOKEN_ALTS, 2)
     return c
 
@@ -1230,7 +1244,7 @@ def run(chk, cases=None, rejections=None):
         "chunk-torch-spect-data-dir on a generated one-utterance directory; outputs (or 'raises') are compared exactly "
         "with PV.C10.Model (vm_compute) under the variant V found by the probes, and with the repaired model "
         "(= the spec by the theorems). non-trivial = slice: >=2 windows with lobe>0 or in_lens given; tokens: some row "
-        "keeps some but not all tokens; dir: >=2 chunks")
+        "keeps some but not all tokens; dir: >=2 chunks. Variants (alts) of a slice/tokens case must reproduce the canonical outcome")
     chk.assumptions += [
         "ChunkBySlices (property C09) is modelled by its documented meaning (restriction + constant padding); reflect/"
         "replicate padding values are blanked before comparison",
